@@ -121,6 +121,10 @@ func registerIntercepts(ex *Explorer) {
 		c.events = append(c.events, EventRec{Label: args[0].(string), Args: as})
 		return nil
 	})
+	ex.register(zz+"SetMapOrder", func(fr *frame, args []value) value {
+		fr.i.ctx.mapMode = int(asInt64(args[0]))
+		return nil
+	})
 	ex.register(zz+"TempDir", func(fr *frame, args []value) value {
 		c := fr.i.ctx
 		n := c.nameCount["$tmpdir"]
